@@ -506,6 +506,67 @@ def unbalanced(kind: str, form: str) -> tuple[bytes, dict]:
     raise ValueError(kind)
 
 
+# ------------------------------------------------------------------------------------------------------------ mail: sub-objects of different sizes, attachments the name alone cannot route
+def _mbox_wrap(messages: list[bytes]) -> bytes:
+    return b"".join(b"From sender@iso.example Mon Jan  2 03:04:05 2023\n" + m.replace(b"\r\n", b"\n") + b"\n" for m in messages)
+
+
+def _inner_message(tag: str, lines: int) -> str:
+    body = "".join(f"inner line {i} of {tag} ................................\r\n" for i in range(lines))
+    return (f"From: inner{tag}@iso.example\r\nTo: x@iso.example\r\nSubject: inner {tag}\r\nDate: Tue, 03 Jan 2023 04:05:06 +0000\r\nMessage-ID: <inner-{tag}@iso>\r\n"
+            f"MIME-Version: 1.0\r\nContent-Type: text/plain; charset=us-ascii\r\n\r\n{body}end inner {tag}\r\n")
+
+
+MAIL_SIZES = {"long": 200, "mid": 20, "short": 2, "tiny": 0}
+
+
+def mail_sized(kind: str, variant: str) -> tuple[bytes, dict]:
+    """A message whose attachment is an attached message (message/rfc822), a multipart sent as attachment, or a plain file of the same name —
+    in different sizes (a long one, then shorter ones: whatever a re-used scratch buffer keeps beyond the new end would show).
+    variant = <what>-<size>: what in msg / multi / file; size in long / mid / short / tiny; 'box' (mbox only) = long, short, mid, tiny in one mailbox."""
+    def one(what: str, size: str, tag: str) -> bytes:
+        n = MAIL_SIZES[size]
+        head = (f"From: a{tag}@iso.example\r\nTo: b@iso.example\r\nSubject: outer {tag}\r\nDate: Mon, 02 Jan 2023 03:04:05 +0000\r\nMessage-ID: <outer-{tag}@iso>\r\n"
+                "MIME-Version: 1.0\r\nContent-Type: multipart/mixed; boundary=\"isoOUT\"\r\n\r\n--isoOUT\r\nContent-Type: text/plain; charset=us-ascii\r\n\r\n"
+                f"outer body {tag} end{tag}\r\n--isoOUT\r\n")
+        if what == "msg":
+            part = "Content-Type: message/rfc822\r\nContent-Disposition: attachment; filename=\"fwd.eml\"\r\n\r\n" + _inner_message(tag, n)
+        elif what == "multi":
+            part = ("Content-Type: multipart/alternative; boundary=\"isoIN\"\r\nContent-Disposition: attachment; filename=\"both.bin\"\r\n\r\n--isoIN\r\nContent-Type: text/plain\r\n\r\n"
+                    + "".join(f"alt line {i} {tag}\r\n" for i in range(n)) + f"--isoIN\r\nContent-Type: text/html\r\n\r\n<p>alt html {tag}</p>\r\n--isoIN--\r\n")
+        else:
+            part = ("Content-Type: text/plain; name=\"same.txt\"\r\nContent-Disposition: attachment; filename=\"same.txt\"\r\n\r\n"
+                    + "".join(f"file line {i} {tag}\r\n" for i in range(n)) + f"file end {tag}\r\n")
+        return (head + part + "\r\n--isoOUT--\r\n").encode("ascii")
+    tag = f"isomail{kind}{variant.replace('-', '')}"
+    if variant == "box":
+        msgs = [one(w, sz, f"{tag}{w}{sz}") for w, sz in (("msg", "long"), ("msg", "short"), ("multi", "mid"), ("file", "long"), ("msg", "tiny"), ("file", "short"))]
+        return _mbox_wrap(msgs), {"has": [tag], "not": []}
+    what, size = variant.split("-")
+    raw = one(what, size, tag)
+    return (_mbox_wrap([raw]) if kind == "mbox" else raw), {"has": ["end" + tag], "not": []}
+
+
+def mail_unnamed(kind: str, variant: str) -> tuple[bytes, dict]:
+    """Attachments whose media type is supported but whose name cannot route them: no file name at all, a name without extension, an extension nobody
+    knows, an empty name; 'named' is the control (an ordinary file name)."""
+    tag = f"isomailname{kind}{variant.replace('-', '')}"
+    cd = {"noname": "attachment", "noext": 'attachment; filename="report"', "unknownext": 'attachment; filename="export.dat1"', "emptyname": 'attachment; filename=""',
+          "named": 'attachment; filename="page.html"', "inline-noname": "inline"}[variant]
+    parts = []
+    for ctype, content in (("text/html; charset=utf-8", f"<html><body><p>html att {tag}</p></body></html>"), ("text/plain; charset=utf-8", f"plain att {tag}"),
+                           ("text/csv", f"a,b\r\n{tag},1"), ("application/json", '{"k": "%s"}' % tag)):
+        parts.append(f"--isoNM\r\nContent-Type: {ctype}\r\nContent-Disposition: {cd}\r\n\r\n{content}\r\n")
+    raw = (f"From: a{tag}@iso.example\r\nTo: b@iso.example\r\nSubject: {tag}\r\nDate: Mon, 02 Jan 2023 03:04:05 +0000\r\nMessage-ID: <{tag}@iso>\r\nMIME-Version: 1.0\r\n"
+           "Content-Type: multipart/mixed; boundary=\"isoNM\"\r\n\r\n--isoNM\r\nContent-Type: text/plain; charset=us-ascii\r\n\r\n"
+           f"body {tag} end{tag}\r\n" + "".join(parts) + "--isoNM--\r\n").encode("ascii")
+    return (_mbox_wrap([raw]) if kind == "mbox" else raw), {"has": ["end" + tag], "not": []}
+
+
+MAIL_SIZED = ["msg-long", "msg-short", "msg-mid", "msg-tiny", "multi-long", "multi-short", "file-long", "file-short"]
+MAIL_UNNAMED = ["noname", "noext", "unknownext", "emptyname", "inline-noname", "named"]
+
+
 # ------------------------------------------------------------------------------------------------------------ nesting deeper than the interpreter's recursion limit
 DEEP_LEVELS = {"d300": 300, "d1500": 1500, "d3000": 3000, "d5000": 5000}
 
@@ -635,6 +696,10 @@ FAMILIES = {
     "unb-epub-last": ("epub", lambda v: unbalanced("epub-last", v), ".epub", UNBALANCED_FORMS),
     "unb-html": ("html", lambda v: unbalanced("html", v), ".html", UNBALANCED_FORMS),
     "unb-mhtml": ("mhtml", lambda v: unbalanced("mhtml", v), ".mhtml", UNBALANCED_FORMS),
+    "mbox-sized": ("mbox", lambda v: mail_sized("mbox", v), ".mbox", MAIL_SIZED + ["box"]),
+    "eml-sized": ("eml", lambda v: mail_sized("eml", v), ".eml", MAIL_SIZED),
+    "mbox-unnamed": ("mbox", lambda v: mail_unnamed("mbox", v), ".mbox", MAIL_UNNAMED),
+    "eml-unnamed": ("eml", lambda v: mail_unnamed("eml", v), ".eml", MAIL_UNNAMED),
     "deep-html": ("html", lambda v: deep_markup("html", v), ".html", ["d300", "d1500", "d3000", "d5000"]),
     "deep-mhtml": ("mhtml", lambda v: deep_markup("mhtml", v), ".mhtml", ["d300", "d1500", "d3000"]),
     "zip-mime": ("zip", mime_members, ".zip", ["zipA", "zipB"]),
@@ -664,6 +729,7 @@ def feature(src, kind: str = "") -> str:
     fam, var = src[1], str(src[2]).split(":")[0]
     fixed = {"rtf-cp": "rtf-cp", "epub-multi": "epub-first-match-candidates", "html-multi": "html-first-match-candidates", "plain": "plain",
              "zip-mime": "archive-mime-fallback-members", "tar-mime": "archive-mime-fallback-members", "route": "router-mime-fallback-names",
+             "mbox-sized": "mbox-attachment-sizes", "eml-sized": "eml-attachment-sizes", "mbox-unnamed": "mbox-unnamed-attachment", "eml-unnamed": "eml-unnamed-attachment",
              "deep-html": "html-deep-nesting", "deep-mhtml": "mhtml-deep-nesting",
              "unb-epub": "epub-unclosed-markup", "unb-epub-last": "epub-unclosed-markup", "unb-html": "html-unclosed-markup", "unb-mhtml": "mhtml-unclosed-markup"}
     if fam in fixed:
@@ -706,6 +772,12 @@ def groups() -> list[dict]:
         g("epub:unclosed-markup-first/parser-state", "unb-epub-last", UNBALANCED_FORMS),
         g("html:unclosed-markup/parser-state", "unb-html", UNBALANCED_FORMS),
         g("mhtml:unclosed-markup/parser-state", "unb-mhtml", UNBALANCED_FORMS),
+    ]
+    out += [
+        g("mbox:attachment-size/scratch-buffer", "mbox-sized", FAMILIES["mbox-sized"][3]),
+        g("eml:attachment-size/scratch-buffer", "eml-sized", MAIL_SIZED),
+        g("mbox:attachment-name-fallback/stored-attachment", "mbox-unnamed", MAIL_UNNAMED),
+        g("eml:attachment-name-fallback/stored-attachment", "eml-unnamed", MAIL_UNNAMED),
     ]
     out.append({"name": "markup:deep-nesting/interpreter-recursion-limit",
                 "members": [("html", ["iso", "deep-html", v]) for v in FAMILIES["deep-html"][3]] + [("mhtml", ["iso", "deep-mhtml", v]) for v in FAMILIES["deep-mhtml"][3]]
